@@ -167,7 +167,7 @@ func BuildDB(spec SchemaSpec, clientIndexes map[string][]model.ClientIndex) (*DB
 			db.fieldOf[t.Name][c.Name] = fieldName(i)
 		}
 		// an untagged marker field keeps struct types of different tables distinct
-		fields = append(fields, reflect.StructField{Name: "T" + strings.ReplaceAll(t.Name, "_", "") + "Marker", Type: reflect.TypeOf(struct{}{})})
+		fields = append(fields, reflect.StructField{Name: "T" + strings.ReplaceAll(t.Name, "_", "") + "Marker", Type: reflect.TypeOf(false)})
 		st := reflect.StructOf(fields)
 		db.types[t.Name] = st
 		models[t.Name] = reflect.New(st).Interface()
